@@ -1,0 +1,23 @@
+//go:build verif
+
+package wal
+
+import "sync/atomic"
+
+// Schedule points for the verification harness (build tag verif only).
+var verifHook atomic.Value // func(string)
+
+// SetVerifHook installs fn to be called at every schedule point. Pass nil to
+// remove it.
+func SetVerifHook(fn func(point string)) {
+	if fn == nil {
+		fn = func(string) {}
+	}
+	verifHook.Store(fn)
+}
+
+func verifPoint(point string) {
+	if fn, ok := verifHook.Load().(func(string)); ok {
+		fn(point)
+	}
+}
